@@ -14,6 +14,7 @@ safe search are not part of the model.
 -/
 import AGH.Lemmas.FilterHandle
 import AGH.Lemmas.FilterRules
+import AGH.Lemmas.FilterPattern
 set_option linter.unusedSimpArgs false
 namespace AGH.Filter
 open AGH AGH.Bytes
@@ -486,6 +487,39 @@ theorem C01_rules_client_scopes (r : NetRule) (q : ReqInfo)
       · rw [if_neg (by simp), if_pos h1, h2]
       · rw [if_pos rfl]
   simp [netMatch, this]
+
+/-- What `||domain^` means (model of urlfilter's pattern language): it matches the
+domain itself, in any letter case of the rule … -/
+theorem C01_rules_domain_pattern_self (d : Bytes) (hd : d.all plainByte = true) (hne : d ≠ []) :
+    searchFrom (.startURL :: compileBody (d ++ [94])) (httpScheme ++ lower d) true = true := by
+  apply search_first
+  rw [compileBody_plain d hd]
+  have hpre : httpScheme.isPrefixOf (httpScheme ++ lower d) = true := by simp
+  have hdrop : (httpScheme ++ lower d).drop httpScheme.length = lower d := by simp
+  simp only [matchHere, hpre, hdrop, Bool.true_and]
+  have := matchHere_lits d [Tok.sep] [] false hne
+  simp only [List.append_nil] at this
+  rw [this, matchHere_sep_end]
+  rfl
+
+/-- … and every sub-domain `sub.domain` (sub made of host-name bytes). -/
+theorem C01_rules_domain_pattern_sub (d sub : Bytes) (hd : d.all plainByte = true) (hne : d ≠ [])
+    (hsub : sub.all plainByte = true) (hsne : sub ≠ []) :
+    searchFrom (.startURL :: compileBody (d ++ [94])) (httpScheme ++ (sub ++ dot :: lower d)) true = true := by
+  apply search_first
+  rw [compileBody_plain d hd]
+  have hpre : httpScheme.isPrefixOf (httpScheme ++ (sub ++ dot :: lower d)) = true := by simp
+  have hdrop : (httpScheme ++ (sub ++ dot :: lower d)).drop httpScheme.length = sub ++ dot :: lower d := by simp
+  simp only [matchHere, hpre, hdrop, Bool.true_and]
+  have hmem := afterHostPrefix_mem sub (lower d) false hsub (Or.inl hsne)
+  have hm : matchHere (d.map Tok.lit ++ [Tok.sep]) (lower d) false = true := by
+    have := matchHere_lits d [Tok.sep] [] false hne
+    simp only [List.append_nil] at this
+    rw [this, matchHere_sep_end]
+  have : (afterHostPrefix (sub ++ dot :: lower d) false).any
+      (fun r => matchHere (d.map Tok.lit ++ [Tok.sep]) r false) = true :=
+    List.any_eq_true.mpr ⟨_, hmem, hm⟩
+  simp [this]
 
 /-- C01 for engines built from rule lists: the Layer A theorem instantiated with Layer B. -/
 theorem C01_rules_blocked_not_forwarded (block allow : List Rule) (c : Conf) (u : Upstream) (q : Query)
